@@ -910,7 +910,11 @@ impl<'a> P<'a> {
                 };
                 sub.content(stack).map_err(|mut e| {
                     e.pos = self.i;
-                    if !e.site.starts_with("WFC.") {
+                    // constraints on the references inside the text (recursion, declaredness, unparsed entities) are
+                    // checked by the implementation when the entity is declared; everything that can only be seen by
+                    // parsing the replacement text as `content` (tag balance, duplicate attributes, ...) is the recorded
+                    // deviation "replacement text is never parsed"
+                    if !matches!(e.site, "WFC.NoRecursion" | "WFC.EntityDeclared" | "WFC.ParsedEntity") {
                         e.in_entity = true;
                     }
                     e
